@@ -84,7 +84,7 @@ func advReq(r *Rng) OReq {
 		v := reqVec(r, []int{n, n, r.Intn(n + 1), n + 1 + r.Intn(3)}[r.Intn(4)])
 		q.Initial = &VRef{Kind: "inline", V: &v}
 	}
-	a := JFloat([]float64{0.1, 0.5, 0.85, 1, 0.01}[r.Intn(5)])
+	a := JFloat([]float64{0.1, 0.5, 0.85, 1, 0.05}[r.Intn(5)])
 	q.Alpha = &a
 	// adversarial mutations (1-3 of them)
 	for k := 1 + r.Intn(2); k > 0; k-- {
@@ -171,6 +171,11 @@ func advReq(r *Rng) OReq {
 				q.Local.M.Es = nil // nobody trusts anybody
 			}
 		}
+	}
+	// a request that itself asks for more iterations than the watchdog allows is given a small cap
+	// (the limit wins over minIterations / checkFreq), so that a watchdog expiry always means "unbounded"
+	if (q.Min != nil && *q.Min > 1000) || (q.Freq != nil && *q.Freq > 1000) {
+		q.Max = ip(3)
 	}
 	return q
 }
@@ -429,6 +434,8 @@ func runC15(c *Case) error {
 				c.Known = "oapi.compute:tiny-epsilon-binary64-2-cycle"
 			case q.FT != nil && *q.FT > 0:
 				c.Known = "oapi.compute:flat-tail-tied-scores-never-stable"
+			case q.Alpha != nil && float64(*q.Alpha) > 0 && 1-float64(*q.Alpha) == 1:
+				c.Known = "oapi.compute:alpha-below-rounding-undamped-iteration"
 			}
 		}
 	case "ORaw":
